@@ -201,6 +201,61 @@ func propC02(c *Check) {
 			return ok && Call("(*crypto.BatchVerifier).add", nil, Path(Param("keys"), "[]"), Has(Param("msg")), Has(Path(Param("sigs"), "[]")))(cl)
 		}, "verifier.add(keys[i], msg, sigs[i])", "every pair enters the batch equation")
 	}
+	// ---- batch equation: an independent random coefficient per entry. With one shared z the
+	// equation degenerates to z * (sum of the single equations) and errors in different
+	// signatures cancel; the random linear combination is only sound with a fresh z_i each.
+	if f := c.F("(*crypto.BatchVerifier).Verify"); f != nil {
+		lp := c.RangeLoop(f, "entries", Path(Param("v"), "entries"))
+		if lp != nil {
+			sliceRoot := func(v ssa.Value) ssa.Value {
+				for {
+					sl, ok := v.(*ssa.Slice)
+					if !ok {
+						return v
+					}
+					v = sl.X
+				}
+			}
+			c.LoopEffect(f, lp, func(ins ssa.Instruction) bool {
+				cl, ok := ins.(*ssa.Call)
+				if !ok || !Call("(*filippo.io/edwards25519.Scalar).SetCanonicalBytes")(cl) || len(cl.Call.Args) < 2 {
+					return false
+				}
+				root := sliceRoot(cl.Call.Args[1])
+				ri, ok := root.(ssa.Instruction)
+				if !ok || !lp.Blocks[ri.Block().Index] {
+					return false
+				}
+				switch root.(type) {
+				case *ssa.Alloc, *ssa.MakeSlice:
+				default:
+					return false
+				}
+				// filled by ReadRand on >= 16 bytes of the same per-iteration buffer, before use, in the same block
+				for _, prev := range cl.Block().Instrs {
+					if prev == ins {
+						break
+					}
+					rc, ok := prev.(*ssa.Call)
+					if !ok || !Call("crypto.ReadRand")(rc) || sliceRoot(rc.Call.Args[0]) != root {
+						continue
+					}
+					if sl, ok := rc.Call.Args[0].(*ssa.Slice); ok && sl.High != nil && sl.Low == nil {
+						if k, ok := sl.High.(*ssa.Const); ok && k.Int64() >= 16 {
+							return true
+						}
+					}
+				}
+				return false
+			}, "z_i = fresh ReadRand(>=16 bytes) buffer allocated in this iteration -> Rcoeffs[i].SetCanonicalBytes", "each entry is weighted by its own independent 128-bit random coefficient")
+			c.LoopGate(f, lp, Gate{Name: "len(entry.signature) != 64 => false", RejectOnTrue: true,
+				Cond: Bin(token.NEQ, Len(Path(Param("v"), "entries.[].signature")), ConstInt(64))}, "only full-length signatures enter the equation")
+			c.LoopGate(f, lp, Gate{Name: "decodePoint err != nil => false", RejectOnTrue: true, Min: 2,
+				Cond: BinEither(token.NEQ, Extract(1, Call("crypto.decodePoint")), ConstNil)}, "R and A are valid decoded points")
+			c.LoopGate(f, lp, Gate{Name: "SetCanonicalBytes err != nil => false", RejectOnTrue: true, Min: 2,
+				Cond: BinEither(token.NEQ, Extract(1, Call("(*filippo.io/edwards25519.Scalar).SetCanonicalBytes")), ConstNil)}, "z_i and s_i are canonical scalars")
+		}
+	}
 	if f := c.F("crypto.AggregateVerify"); f != nil {
 		rets := acceptReturns(f)
 		agg := Call("crypto.aggregateWeightedPublicKey", Param("publics"), Param("signers"))
